@@ -946,8 +946,12 @@ impl Database {
 
                             let new_user_record =
                                 OwnedValue::build_record_from_values(&owned_values, &new_schema)?;
-                            let wrapped_record =
-                                wrap_record_for_insert(0, &new_user_record, false);
+                            // keep the row's own MVCC header: a fresh one clears DELETE_BIT and
+                            // brings deleted rows back
+                            let mut wrapped_record =
+                                Vec::with_capacity(RecordHeader::SIZE + new_user_record.len());
+                            wrapped_record.extend_from_slice(&value[..RecordHeader::SIZE]);
+                            wrapped_record.extend_from_slice(&new_user_record);
                             batch.push((key.clone(), wrapped_record));
                         }
                     }
